@@ -33,12 +33,12 @@ def units(tier):
                     continue
                 rot += 1
                 sym = holes[rot % len(holes)] if (holes and rot % 2) else "sent"
-                us.append(dict(h="omp", stmt=name, form=form, slots=slot, cont=None, sym=sym, cost=2))
+                us.append(dict(h="omp", stmt=name, form=form, slots=slot, cont=None, sym=sym, ind=rot % 4, strict=(rot % 3 == 0), cost=2))
             for (j, o) in (pts if not q else pts[::max(1, len(pts) // 2)]):
                 rot += 1
-                us.append(dict(h="omp", stmt=name, form=form, slots=1, cont=[j, o], sym="sent" if rot % 2 else "mark", cost=2))
+                us.append(dict(h="omp", stmt=name, form=form, slots=1, cont=[j, o], sym="sent" if rot % 2 else "mark", ind=rot % 4, strict=(rot % 3 == 0), cost=2))
                 # two continuation lines with a blank / comment line between them
-                us.append(dict(h="omp", stmt=name, form=form, slots=1, cont=[j, o], three=("comment", "blank")[rot % 2], sym="mark" if rot % 2 else "sent", cost=3))
+                us.append(dict(h="omp", stmt=name, form=form, slots=1, cont=[j, o], three=("comment", "blank")[rot % 2], sym="mark" if rot % 2 else "sent", ind=(rot + 1) % 4, strict=(rot % 3 == 1), cost=3))
     return us
 
 
@@ -71,7 +71,7 @@ def omp(ctx):
     if form == "free":
         after = ctx.chars("after", 1, " abcdefghijklmnopqrstuvwxyz&0123456789!$") if sym == "sent" else " "
         is_cond = bool(after == " ")
-        sent1 = "!$" + after
+        sent1 = " " * p.get("ind", 0) + "!$" + after
     else:
         s0 = ctx.chars("s0", 1, "!*cC") if sym == "sent" else "!"
         c6 = ctx.chars("c6", 1, " 0") if sym == "sent" else " "
@@ -107,12 +107,12 @@ def omp(ctx):
             if len(pieces) == 1:
                 out.append((sent1 if with_sentinel else "   ") + pieces[0])
             else:
-                out.append((sent1 if with_sentinel else "   ") + pieces[0] + " &")
+                out.append((sent1 if with_sentinel else " " * p.get("ind", 0) + "   ") + pieces[0] + " &")
                 for k in range(1, len(pieces)):
                     if k == 2:
                         out.append("" if p.get("three") == "blank" else "  ! between")
                     last = k == len(pieces) - 1
-                    out.append((sent1 if with_sentinel else "   ") + amp + pieces[k] + ("" if last else "&"))
+                    out.append((sent1 if with_sentinel else " " * p.get("ind", 0) + "   ") + amp + pieces[k] + ("" if last else "&"))
         else:
             if len(pieces) == 1:
                 out.append((sent1 if with_sentinel else "      ") + pieces[0])
@@ -145,6 +145,15 @@ def omp(ctx):
     ref_on = prog("blank" if is_cond else "without")
     ref_off = prog("without")
     def tree(text, **kw):
+        if form == "fixed" and p.get("strict"):
+            # strict fixed form (F77 mode) set explicitly on the reader
+            def go():
+                from fparser.common.readfortran import FortranStringReader
+                from fparser.common.sourceinfo import FortranFormat
+                rd = FortranStringReader(text, ignore_comments=True, **kw)
+                rd.set_format(FortranFormat(False, True))
+                return C.get_parser("f2008")(rd)
+            return C.outcome(go)
         return C.outcome(lambda: C.parse(text, "f2008", True, **kw))
     t_on = tree(src, include_omp_conditional_lines=True)
     C.reset()
